@@ -2,7 +2,7 @@
 
 # result sorts, used when a function is opaque (uninterpreted) in a proof that does not need its definition
 SIG = {'length_ok': 'bool', 'length_octets': 'int[nat]', 'length_value': 'int[nat]', 'tlv_ok': 'bool', 'tlv_size': 'int[nat]',
-       'tlv_content': 'bytes', 'explicit_ok': 'bool', 'encode_length': 'bytes', 'int_value': 'int', 'int_minimal': 'bool', 'lemma_len_prefix': 'bool', 'lemma_tlv_build': 'bool'}
+       'tlv_content': 'bytes', 'explicit_ok': 'bool', 'int_value': 'int', 'int_minimal': 'bool', 'lemma_len_prefix': 'bool', 'lemma_tlv_build': 'bool'}
 
 
 
@@ -33,13 +33,6 @@ def length_value(b):
     if b[0] < 128:
         return b[0]
     return be(b[1:1 + (b[0] - 128)])
-
-
-def encode_length(n):
-    """definite form, minimal number of octets"""
-    if n < 128:
-        return bytes([n])
-    return bytes([128 + minlen(n)]) + i2osp(n, minlen(n))
 
 
 def tlv_ok(b, tag):
